@@ -5,7 +5,6 @@ import (
 	"io"
 	"math"
 
-	"github.com/panjf2000/gnet/v2/pkg/buffer/linkedlist"
 	"github.com/panjf2000/gnet/v2/pkg/buffer/ring"
 )
 
@@ -15,58 +14,7 @@ import (
 // invariant); list of 0..vCfg("nodes") segments. Abstract value = ring content ++ list content.
 // ---------------------------------------------------------------------------------------
 
-func vAnyRB(tag string) RingBuffer {
-	var b RingBuffer
-	if vNondetBool(tag + ".present") {
-		b.rb = ring.VAnyRing(tag)
-	}
-	return b
-}
-
-func vAnyBuffer() *Buffer {
-	mb := &Buffer{}
-	mb.maxStaticBytes = vNondetInt("max")
-	vAssume(1 <= mb.maxStaticBytes && mb.maxStaticBytes <= vMaxLen())
-	mb.ringBuffer = vAnyRB("rb")
-	mb.listBuffer = *linkedlist.VAnyList("l")
-	vAssume(mb.ringBuffer.Buffered()+mb.listBuffer.Buffered() <= math.MaxInt32)
-	return mb
-}
-
-func vInv(mb *Buffer) bool {
-	return (mb.ringBuffer.rb == nil || ring.VRingInv(mb.ringBuffer.rb)) && linkedlist.VListInv(&mb.listBuffer) &&
-		mb.Buffered() == mb.ringBuffer.Buffered()+mb.listBuffer.Buffered() && mb.IsEmpty() == (mb.Buffered() == 0)
-}
-
-// vEAt: k-th byte of the abstract content
-func vEAt(mb *Buffer, k int) byte {
-	rn := mb.ringBuffer.Buffered()
-	if k < rn {
-		return ring.VAt(mb.ringBuffer.rb, k)
-	}
-	return linkedlist.VLAt(&mb.listBuffer, k-rn)
-}
-
-func vCatLen(bs [][]byte) int {
-	n := 0
-	for _, b := range bs {
-		n += len(b)
-	}
-	return n
-}
-
-func vCatAt(bs [][]byte, k int) byte {
-	for _, b := range bs {
-		if k < len(b) {
-			return b[k]
-		}
-		k -= len(b)
-	}
-	vAssert("C10.harness.cat_index_in_range", false)
-	return 0
-}
-
-//verif: mode=int unwind=6
+// verif: mode=int unwind=6
 func VH_C10_Write() {
 	mb := vAnyBuffer()
 	n := vNondetInt("n")
@@ -89,7 +37,7 @@ func VH_C10_Write() {
 	vReach("C10.write.end")
 }
 
-//verif: mode=int unwind=6 tier=thorough
+// verif: mode=int unwind=6 tier=thorough
 func VH_C10_Writev() {
 	vWritev(false)
 }
@@ -97,7 +45,7 @@ func VH_C10_Writev() {
 // quick variant: the ring has already reached the static limit (or the list is in use), i.e. the ring/list
 // switch-over; a ring that still grows under Writev is explored in the thorough tier only (path count).
 //
-//verif: mode=int unwind=6
+// verif: mode=int unwind=6
 func VH_C10_WritevAtLimit() {
 	vWritev(true)
 }
@@ -134,7 +82,7 @@ func vWritev(atLimit bool) {
 	vReach("C10.writev.end")
 }
 
-//verif: mode=int
+// verif: mode=int
 func VH_C10_Read() {
 	mb := vAnyBuffer()
 	n := vNondetInt("n")
@@ -160,7 +108,7 @@ func VH_C10_Read() {
 	vReach("C10.read.end")
 }
 
-//verif: mode=int
+// verif: mode=int
 func VH_C10_Peek() {
 	mb := vAnyBuffer()
 	n := vNondetInt("n")
@@ -188,7 +136,7 @@ func VH_C10_Peek() {
 	vReach("C10.peek.end")
 }
 
-//verif: mode=int
+// verif: mode=int
 func VH_C10_Discard() {
 	mb := vAnyBuffer()
 	n := vNondetInt("n")
@@ -214,7 +162,7 @@ func VH_C10_Discard() {
 	vReach("C10.discard.end")
 }
 
-//verif: mode=int
+// verif: mode=int
 func VH_C10_ResetRelease() {
 	mb := vAnyBuffer()
 	had := mb.ringBuffer.rb != nil
@@ -297,7 +245,7 @@ func (w *vWriter) Write(p []byte) (int, error) {
 	return m, nil
 }
 
-//verif: mode=int unwind=6
+// verif: mode=int unwind=6
 func VH_C10_ReadFrom() {
 	mb := vAnyBuffer()
 	L0 := mb.Buffered()
@@ -322,7 +270,7 @@ func VH_C10_ReadFrom() {
 	vReach("C10.readfrom.end")
 }
 
-//verif: mode=int
+// verif: mode=int
 func VH_C10_WriteTo() {
 	mb := vAnyBuffer()
 	L0 := mb.Buffered()
@@ -353,9 +301,7 @@ func VH_C10_WriteTo() {
 
 // ----------------------------------------------------------------------- elastic.RingBuffer
 
-func vRBInv(b *RingBuffer) bool { return b.rb == nil || ring.VRingInv(b.rb) }
-
-//verif: mode=int unwind=6
+// verif: mode=int unwind=6
 func VH_C10_RB_Write() {
 	b := vAnyRB("rb")
 	n := vNondetInt("n")
@@ -379,7 +325,7 @@ func VH_C10_RB_Write() {
 	vReach("C10.rb.write.end")
 }
 
-//verif: mode=int
+// verif: mode=int
 func VH_C10_RB_ReadDiscard() {
 	b := vAnyRB("rb")
 	had := b.rb != nil
@@ -422,7 +368,7 @@ func VH_C10_RB_ReadDiscard() {
 	vReach("C10.rb.consume.end")
 }
 
-//verif: mode=int
+// verif: mode=int
 func VH_C10_RB_WriteTo() {
 	b := vAnyRB("rb")
 	had := b.rb != nil
@@ -447,7 +393,7 @@ func VH_C10_RB_WriteTo() {
 	vReach("C10.rb.writeto.end")
 }
 
-//verif: mode=int
+// verif: mode=int
 func VH_C10_RB_PeekBytes() {
 	b := vAnyRB("rb")
 	n := vNondetInt("n")
